@@ -287,7 +287,7 @@ pub fn run(ctx: &mut Ctx) -> Result<(), Violation> {
         ctx.stage("b3-states-within-short-depth-x-all-ops", true, r)?;
     }
 
-    let cases = ctx.tier.pick(40_000, 600_000);
+    let cases = ctx.tier.pick(40_000, 4_000_000);
     let r = par_random(ctx, "random", cases, 130, |tape, st| {
         let mut t = Tape::new(tape);
         let bits = 1 + t.choose(3);
